@@ -289,7 +289,7 @@ class LocationDB(object):
             elif offset_loc_key is not None:
                 if name is not None:
                     # Check for already known name are checked above
-                    return self.add_location_name(offset_loc_key, name)
+                    self.add_location_name(offset_loc_key, name)
                 # Offset already known, no name specified
                 return offset_loc_key
 
